@@ -340,6 +340,9 @@ def run(chk):
     chk.clause("D6", "the stated sample sex reaches the computation: verify_sample_sex (C15 rule)")
     from . import C15
     C15.d3c_stated_sex(chk, prog)
+    chk.clause("CLI", "the `export bed|vcf|seg` command lines: ploidy, sexes, PAR genome, label, --show and every input file reach the export functions")
+    from .. import cliglue
+    cliglue.check_export(chk, prog)
 
 
 _E = "cnvlib/export.py"
